@@ -460,7 +460,14 @@ def round_object(x, method):
     x = np.asarray(x, dtype=object)
     if _round is None:
         return x
-    vals = [_round(v) if isinstance(v, float) and math.isfinite(v) else v for v in x.flatten()]
+    _np_round = {'around': np.around, 'floor': np.floor, 'ceil': np.ceil, 'fix': np.trunc, 'trunc': np.trunc}.get(method)
+    def _round_one(v):
+        if isinstance(v, float):
+            return _round(v) if math.isfinite(v) else v
+        if isinstance(v, np.floating):      # e.g. extended precision (longdouble) elements
+            return int(_np_round(v)) if np.isfinite(v) else v
+        return v
+    vals = [_round_one(v) for v in x.flatten()]
     return np.array(vals, dtype=object).reshape(x.shape)
 
 def get_sizes_from_dtype(dtype):
